@@ -197,6 +197,87 @@ def check(ctx: Ctx) -> None:
     from ..dsf import auto_memo_check
     ctx.rule('C01.d', 'no auto-discovered lazily filled cache of the classes in the anchored modules can be stale at the exit of a public method (dependencies = what the fill expression reads, incl. mutating calls on held sub-objects)', floor=4)
     auto_memo_check(ctx, 'C01.d', [FUND])
+    from ..commit import check_family
+    check_family(ctx, 'C01.f', ['Modulator'], floor=3)
+    _check_detector_table_coupling(ctx)
+    from ..idioms import check_input_immutability, public_api
+    check_input_immutability(ctx, 'C01.g', public_api(ctx.model, [FUND], include={'modulate', 'demodulate', 'setConstellation'}), floor=3)
+
+
+def _check_detector_table_coupling(ctx: Ctx) -> None:
+    """C01.h: a detector that does not consult the symbol table is only right while the table is the one its class built."""
+    M = ctx.model
+    ctx.rule('C01.h', 'a class whose resolved demodulate does not read the symbol table offers no public method that replaces the table '
+                      '(otherwise detection no longer picks the nearest point of the emitted constellation after that call)', floor=4)
+    base = M.cls('Modulator')
+    setc = base.methods.get('setConstellation')
+    if setc is None:
+        ctx.error('C01.h: Modulator.setConstellation vanished')
+    sn0 = setc.self_name or 'self'
+    table = {n.attr for n in walk_no_nested(setc.node) if isinstance(n, ast.Attribute) and isinstance(n.ctx, ast.Store)
+             and is_self_attr(n, sn0)} - {'_M', '_K'}
+    if not table:
+        ctx.error('C01.h: setConstellation stores no table attribute (idiom unknown)')
+
+    def reads_table(cls, fn, seen):
+        if fn is None or id(fn.node) in seen:
+            return False
+        seen.add(id(fn.node))
+        sn = fn.self_name
+        if sn is None:
+            return False
+        for n in ast.walk(fn.node):
+            a = is_self_attr(n, sn) if isinstance(n, ast.Attribute) else None
+            if a in table and isinstance(n.ctx, ast.Load):
+                return True
+            if isinstance(n, ast.Call) and isinstance(n.func, ast.Attribute):
+                h = is_self_attr(n.func, sn)
+                if h and reads_table(cls, M.lookup_method(cls, h), seen):
+                    return True
+                if isinstance(n.func.value, ast.Call) and norm(n.func.value.func) == 'super' and \
+                        reads_table(cls, M.lookup_method(cls, n.func.attr, after=fn.cls), seen):
+                    return True
+        return False
+
+    def replaces_table(cls, fn, seen):
+        if fn is None or id(fn.node) in seen:
+            return False
+        seen.add(id(fn.node))
+        sn = fn.self_name
+        if sn is None:
+            return False
+        for n in ast.walk(fn.node):
+            if isinstance(n, ast.Attribute) and isinstance(n.ctx, ast.Store) and is_self_attr(n, sn) in table:
+                return True
+            if isinstance(n, ast.Call) and isinstance(n.func, ast.Attribute):
+                h = is_self_attr(n.func, sn)
+                if h and (h == 'setConstellation' or replaces_table(cls, M.lookup_method(cls, h), seen)):
+                    return True
+        return False
+
+    for cls in [base] + M.subclasses(base):
+        det = M.lookup_method(cls, 'demodulate')
+        construct = cls.name
+        ctx.instance('C01.h', construct)
+        if det is None:
+            ctx.error('C01.h: %s has no demodulate' % cls.name)
+        uses = reads_table(cls, det, set())
+        mutators = []
+        if not uses:
+            names = set()
+            for k in M.mro(cls):
+                names |= {n for n in k.methods if not n.startswith('_') and n != 'setConstellation'}
+            for nme in sorted(names):
+                f = M.lookup_method(cls, nme)
+                if f is not None and replaces_table(cls, f, set()):
+                    mutators.append(f.qualname)
+        ok = uses or not mutators
+        ctx.obligation('C01.h', construct, ok, {'detector': det.qualname, 'detector_reads_table': uses, 'public_table_mutators': mutators},
+                       nontrivial=not uses)
+        if not ok:
+            ctx.violation('C01.h', det.qualname, 'the detector of %s does not read the symbol table (%s) but %s can replace that table: after '
+                          'such a call demodulate no longer returns the index of the nearest constellation point'
+                          % (cls.name, sorted(table), mutators), det.path, det.lineno, operand='table-coupling:' + cls.name)
 
 
 MUTANTS = [
